@@ -62,6 +62,15 @@ check('C16', 'fault_enumeration', 'fault injection at the _solver_helper hook fo
       'finite values, the failure must be raised or warned + error_code, and the rows reported before it must equal the '
       'non-failing run.', 'Fault model: the solver reports SolverStatus.error at the _solver_helper boundary. ' + SIMNOTE, 'DESIGN.md#C16')
 
+check('C15', 'exploration', 'reference-model monitor: compiled residuals/Jacobian/indices after every set_structure of random add/remove/change histories vs dual-number evaluation of the generator\'s own expression tree; ASan+UBSan re-run of evaluator.cpp',
+      'Random expression DAGs (all operators, reflected/folding constants, shared sub-expressions and Float/Param leaves across constraints, if_else, '
+      'ConditionalExpression with 1-3 conditions) under histories of add / remove / re-add / delete ConstraintDict / set values / load x; after every '
+      'set_structure every residual row, every Jacobian entry (incl. structural zeros), Constraint.index, Var.index and get_x are compared with an '
+      'independent dual-number evaluation; exact boundary points of inequalities and abs/sign kinks compare values only; 120 (quick) / 1500 (thorough) '
+      'histories are repeated under the sanitizer build.',
+      'Reference: forward-mode dual numbers over the generator tree (vlib/gen/expr.py), nothing from wntr. Points outside the domain of definition are '
+      'rejected and resampled. A clean sanitizer run means 0 report blocks on these histories, not memory safety.', 'DESIGN.md#C15')
+
 NOT_YET = 'monitor not built yet in this commit (planned in DESIGN.md section 4)'
 ALL = ['C%02d' % i for i in range(1, 21)]
 
